@@ -68,7 +68,7 @@ def read_name(data, off, strict_len=True, follow=True):
             target = ((l & 0x3F) << 8) | data[off + 1]
             if nxt is None:
                 nxt = off + 2
-            if target in seen or len(hops) > 127:
+            if target in seen:  # iterative; at most 2^14 distinct targets, so this always terminates
                 raise WireError("pointer-loop", off)
             seen.add(target)
             hops.append((off, target, len(labels)))
@@ -328,6 +328,11 @@ def selftest():
     _expect("reserved-label-type", parse_message, hdr + _hx("4061 00 0001 0001"))
     _expect("reserved-label-type", parse_message, hdr + _hx("8061 00 0001 0001"))
     _expect("truncated-label", parse_message, hdr + _hx("0561 62"))
+    # long acyclic pointer-to-pointer chains are legal (8000 hops, forward; then the same ending in a cycle)
+    chain = b"".join(struct.pack("!H", 0xC000 | (14 + 2 * i)) for i in range(8000))
+    t = read_name(hdr + chain + b"\x03end\x00", 12)
+    assert t.labels == (b"end",) and len(t.hops) == 8000 and t.next == 14
+    _expect("pointer-loop", read_name, hdr + chain + b"\xc0\x0c", 12)
     # forward pointer is readable (no loop)
     p = parse_message(hdr + _hx("c012 0001 0001 0161 00"))
     assert p["questions"] == [((b"a",), 1, 1)] and p["end"] == 18
